@@ -33,6 +33,19 @@ class Executor(ExternMixin, ExprMixin, CallMixin, BuiltinMixin, StmtMixin, Engin
         if c.get('yield_may_raise') and self.st.oracle.choose(2) == 1:
             raise PyRaise('AnyException', 'thrown into the generator at yield')
 
+    def some_call_passes(self, fname, kwname):
+        cache = self.__dict__.setdefault('_kwcalls', {})
+        if (fname, kwname) not in cache:
+            found = False
+            for t in self.src.trees.values():
+                for n in ast.walk(t):
+                    if isinstance(n, ast.Call) and any(k.arg == kwname for k in n.keywords):
+                        f = n.func
+                        if (isinstance(f, ast.Attribute) and f.attr == fname) or (isinstance(f, ast.Name) and f.id == fname):
+                            found = True
+            cache[(fname, kwname)] = found
+        return cache[(fname, kwname)]
+
     # ------------------------------------------------------------ one path
     def find_function(self, key, c):
         self.enclosing_bound = set()
@@ -141,8 +154,12 @@ class Executor(ExternMixin, ExprMixin, CallMixin, BuiltinMixin, StmtMixin, Engin
         for p in params + [a.arg for a in fn.args.kwonlyargs]:
             if p not in pspecs:
                 if p in _defaults:
-                    # a parameter the contract does not know (added later, with a default): callers under contract do not pass it
-                    env[p] = self.ev(_defaults[p])
+                    # a parameter the contract does not know (added later, with a default).  If no call in the source passes it, the
+                    # default is what callers get; if some call does pass it and it is a flag, either value may arrive
+                    dv = self.ev(_defaults[p])
+                    if dv.k == 'bool' and self.some_call_passes(fn.name, p):
+                        dv = VB(self.sym(p, BOOL))
+                    env[p] = dv
                     continue
                 raise Unsupported(f'{key}: no type for parameter {p}')
             env[p] = self.fresh_of(pspecs[p], p)
